@@ -557,7 +557,11 @@ class DictArithmetic(dict):
         """
         if isinstance(other, dict):
             items, oitems = tuple(self.items()), tuple(other.items())
-            self.clear()
+            # only the terms are rebuilt; ``self.clear()`` would also reset
+            # what subclasses record besides the terms (for a PCBO / PCSO the
+            # constraints and the ancilla counter, so that later constraints
+            # would reuse ancilla names that still occur in the terms).
+            dict.clear(self)
             for k, v in items:
                 kp = k if isinstance(k, tuple) else (k,)
                 for ko, vo in oitems:
